@@ -1147,9 +1147,10 @@ def main(tier):
     # only findings that are still `open` in known_findings.d may explain a failed obligation / a divergence
     open_findings = tuple(f.get('obligation') for f in chk.findings if f.get('status', 'open') == 'open')
     devs = [d for d, o in DEV_OBLIGATION.items() if o in open_findings]
-    native_proc = start_native({'maxlen': 3 if quick else 4, 'alphabet': 'quick', 'workers': 10 if quick else 16, 'deviations': devs,
-                                'file_maxlen': 2 if quick else 4, 'probe_reads_maxlen': 2 if quick else 3,
-                                'prune_noops': quick})
+    # quick: every state reachable by <= 3 state-changing calls x every call (a call that leaves the contract state unchanged
+    # is not extended); thorough: every sequence of length <= 4
+    native_proc = start_native({'maxlen': 4, 'alphabet': 'quick', 'workers': 8 if quick else 16, 'deviations': devs,
+                                'file_maxlen': 3 if quick else 4, 'probe_reads_maxlen': 3, 'prune_noops': quick})
     native2_proc = None if quick else start_native({'maxlen': 2, 'alphabet': 'thorough', 'workers': 4, 'targeted': False, 'deviations': devs})
 
     # ---- Part 1: the 20 RAM methods
@@ -1223,7 +1224,8 @@ def main(tier):
 
     # ---- Part 2: bounded comparison RAM / SQL(:memory:) / SQL(file) against the contract
     if merged is not None:
-        bound = 'all sequences of length <= %d over %d operations (2 studies x 3 trials x 2 clients, owner without studies, malformed and ' \
+        bound = ('' if not quick else '[quick: sequences are extended only after calls that change the contract state] ') + \
+                'all sequences of length <= %d over %d operations (2 studies x 3 trials x 2 clients, owner without studies, malformed and ' \
                 'non-canonical names, metadata updates naming missing trials) + %d targeted scenarios (delete + re-create, ...): %d sequences' \
                 % (native['maxlen'] if native else 0, native['alphabet'] if native else 0, native['targeted'] if native else 0,
                    sum(n['sequences'] for n in natives))
